@@ -2,7 +2,7 @@
    The harness writes, per case, the generated input and what the real IndxIO did with it; the
    functions below compare that with the models Save.v / Load.v and with the specification Layout.v. *)
 From Coq Require Import ZArith List Bool.
-From Catii Require Import Base.Cases Indx.Bytes Indx.Layout Indx.Save Indx.Load.
+From Catii Require Import Base.Cases IIndex.Model Indx.Bytes Indx.Layout Indx.Save Indx.Load Indx.Rebuild.
 Import ListNotations.
 Open Scope Z_scope.
 
@@ -45,6 +45,27 @@ Definition chk_c10 (c : entries_t * Z * list Z * obs) : bool :=
 Definition explain_c10 (c : entries_t * Z * list Z * obs) :=
   let '(es, common, bytes, o) := c in (save es common, load bytes).
 
+(* ---- C10, indexes reached by operation histories (C06 generator): (the real index abstracted before
+   saving, bytes written by the real save, what the real load returned).  The real state meets the
+   hypotheses of load_wf (wf_b, storable_b), the model writes the same bytes, loads what the code loaded,
+   and iindex(entries, common, shape) of that is the index that was saved. *)
+Definition idx_entry_eqb (a b : entry) : bool :=
+  key_eqb (fst a) (fst b) && zlist_eqb (snd a) (snd b).
+Definition idx_eqb (a b : iindex) : bool :=
+  list_eqb idx_entry_eqb (entries a) (entries b) && (Model.common a =? Model.common b)
+  && (nrows a =? nrows b) && zlist_eqb (hshape a) (hshape b).
+
+Definition chk_c10_idx (c : iindex * list Z * obs) : bool :=
+  let '(idx, bytes, o) := c in
+  let es := to_indx (entries idx) in
+  wf_b idx && storable_b idx
+  && sres_is (save es (Model.common idx)) bytes && lres_obs (load bytes) o && lres_obs (LOk es (Model.common idx) 4) o
+  && match rebuild (load bytes) (nrows idx) (hshape idx) with Some i => idx_eqb i idx && wf_b i | None => false end.
+
+Definition explain_c10_idx (c : iindex * list Z * obs) :=
+  let '(idx, bytes, o) := c in
+  (wf_b idx, storable_b idx, save (to_indx (entries idx)) (Model.common idx), load bytes).
+
 (* ---- C11a: real bytes = specification bytes = model bytes; the independent decoder recovers the data *)
 Definition chk_c11_bytes (c : entries_t * Z * list Z) : bool :=
   let '(es, common, bytes) := c in
@@ -86,10 +107,10 @@ Definition explain_c11_widths (c : entries_t * Z * list (Z * Z * Z * Z * obs)) :
    given as runs (start, count) and expanded here, so that the case literal stays small *)
 Definition run_t := (list Z * Z * Z)%type.    (* coords, first row id, number of consecutive row ids *)
 (* start, start+1, ... (n of them), counting in Z: [Z.of_nat i] for every i would make the expansion quadratic *)
-Fixpoint zrange (start : Z) (n : nat) : list Z :=
-  match n with O => [] | S n' => start :: zrange (start + 1) n' end.
+Fixpoint zcount (start : Z) (n : nat) : list Z :=
+  match n with O => [] | S n' => start :: zcount (start + 1) n' end.
 Definition expand_run (r : run_t) : list Z * list Z :=
-  let '(k, start, count) := r in (k, zrange start (Z.to_nat count)).
+  let '(k, start, count) := r in (k, zcount start (Z.to_nat count)).
 Inductive obs_runs := LoadedRuns (rs : list run_t) (common : Z) (rw : Z) | RaisedRuns (code : Z) | LoadedOther.
 Definition obs_of_runs (o : obs_runs) : option obs :=
   match o with
